@@ -30,6 +30,7 @@ func (m *Mutex) Lock() {
 	vsched.PointWhenObj("lock", func() bool { return !m.locked }, 0, m)
 	m.locked = true
 	m.owner = vsched.ThreadID()
+	vsched.HBAcquire(m)
 }
 
 func (m *Mutex) TryLock() bool {
@@ -42,6 +43,7 @@ func (m *Mutex) TryLock() bool {
 	}
 	m.locked = true
 	m.owner = vsched.ThreadID()
+	vsched.HBAcquire(m)
 	return true
 }
 
@@ -59,6 +61,7 @@ func (m *Mutex) Unlock() {
 	// the scheduling point comes before the release: what follows it (the release and the thread's own code up to its
 	// next scheduling operation) touches only this mutex; threads waiting for it are disabled until then either way
 	vsched.PointObj("unlock", m)
+	vsched.HBRelease(m)
 	m.locked = false
 }
 
@@ -79,6 +82,8 @@ func (m *RWMutex) Lock() {
 	}
 	vsched.PointWhenObj("lock", func() bool { return !m.writer && m.readers == 0 }, 0, m)
 	m.writer = true
+	vsched.HBAcquire(m)
+	vsched.HBAcquire(rwReaders{m})
 }
 
 func (m *RWMutex) Unlock() {
@@ -93,6 +98,7 @@ func (m *RWMutex) Unlock() {
 		panic("sync: Unlock of unlocked RWMutex")
 	}
 	vsched.PointObj("unlock", m)
+	vsched.HBRelease(m)
 	m.writer = false
 }
 
@@ -106,6 +112,7 @@ func (m *RWMutex) RLock() {
 	}
 	vsched.PointWhenObj("rlock", func() bool { return !m.writer }, 0, m)
 	m.readers++
+	vsched.HBAcquire(m)
 }
 
 func (m *RWMutex) RUnlock() {
@@ -120,6 +127,7 @@ func (m *RWMutex) RUnlock() {
 		panic("sync: RUnlock of unlocked RWMutex")
 	}
 	vsched.PointObj("runlock", m)
+	vsched.HBRelease(rwReaders{m})
 	m.readers--
 }
 
@@ -132,10 +140,16 @@ func (m *RWMutex) TryLock() bool {
 		return false
 	}
 	m.writer = true
+	vsched.HBAcquire(m)
+	vsched.HBAcquire(rwReaders{m})
 	return true
 }
 
 func (m *RWMutex) RLocker() Locker { return (*rlocker)(m) }
+
+// rwReaders is the happens-before object readers release on (a reader's critical section is ordered before the next
+// writer's, not before other readers').
+type rwReaders struct{ m *RWMutex }
 
 type rlocker RWMutex
 
@@ -159,14 +173,17 @@ func (o *Once) Do(f func()) {
 	}
 	vsched.PointObj("once", o)
 	if o.done {
+		vsched.HBAcquire(o)
 		return
 	}
 	if o.running {
-		vsched.Block("once", func() bool { return o.done }, 0)
+		vsched.BlockLib("once", func() bool { return o.done }, 0)
+		vsched.HBAcquire(o)
 		return
 	}
 	o.running = true
 	defer func() {
+		vsched.HBRelease(o)
 		o.done = true
 		o.running = false
 	}()
@@ -188,6 +205,9 @@ func (w *WaitGroup) Add(d int) {
 		return
 	}
 	vsched.PointObj("wg.add", w)
+	if d < 0 {
+		vsched.HBRelease(w)
+	}
 	w.n += d
 	if w.n < 0 {
 		panic("sync: negative WaitGroup counter")
@@ -205,6 +225,7 @@ func (w *WaitGroup) Wait() {
 		return
 	}
 	vsched.PointWhenObj("wg.wait", func() bool { return w.n == 0 }, 0, w)
+	vsched.HBAcquire(w)
 }
 
 // Cond mirrors sync.Cond (waiters are woken in FIFO order, as the runtime's notify list does).
@@ -237,6 +258,7 @@ func (c *Cond) Wait() {
 	c.waiters = append(c.waiters, t)
 	c.L.Unlock()
 	vsched.PointWhenObj("cond.wait", func() bool { return t.woken }, 0, c)
+	vsched.HBAcquire(c)
 	c.L.Lock()
 }
 
@@ -249,6 +271,7 @@ func (c *Cond) Signal() {
 		return
 	}
 	vsched.PointObj("cond.signal", c)
+	vsched.HBRelease(c)
 	if len(c.waiters) > 0 {
 		c.waiters[0].woken = true
 		c.waiters = c.waiters[1:]
@@ -264,6 +287,7 @@ func (c *Cond) Broadcast() {
 		return
 	}
 	vsched.PointObj("cond.broadcast", c)
+	vsched.HBRelease(c)
 	for _, w := range c.waiters {
 		w.woken = true
 	}
@@ -273,18 +297,20 @@ func (c *Cond) Broadcast() {
 // Map mirrors sync.Map closely enough for code that only needs a concurrent map (every operation is a scheduling point).
 type Map struct{ m sync.Map }
 
-func (m *Map) Load(k any) (any, bool) { vsched.Point("map.load"); return m.m.Load(k) }
-func (m *Map) Store(k, v any)         { vsched.Point("map.store"); m.m.Store(k, v) }
-func (m *Map) Delete(k any)           { vsched.Point("map.delete"); m.m.Delete(k) }
+func (m *Map) Load(k any) (any, bool) { vsched.Point("map.load"); vsched.HBSync(m); return m.m.Load(k) }
+func (m *Map) Store(k, v any)         { vsched.Point("map.store"); vsched.HBSync(m); m.m.Store(k, v) }
+func (m *Map) Delete(k any)           { vsched.Point("map.delete"); vsched.HBSync(m); m.m.Delete(k) }
 func (m *Map) LoadOrStore(k, v any) (any, bool) {
 	vsched.Point("map.loadorstore")
+	vsched.HBSync(m)
 	return m.m.LoadOrStore(k, v)
 }
 func (m *Map) LoadAndDelete(k any) (any, bool) {
 	vsched.Point("map.loadanddelete")
+	vsched.HBSync(m)
 	return m.m.LoadAndDelete(k)
 }
-func (m *Map) Range(f func(k, v any) bool) { vsched.Point("map.range"); m.m.Range(f) }
+func (m *Map) Range(f func(k, v any) bool) { vsched.Point("map.range"); vsched.HBSync(m); m.m.Range(f) }
 
 // Pool mirrors sync.Pool (no per-P caches: a plain LIFO, which is one of the behaviours sync.Pool allows).
 type Pool struct {
@@ -295,6 +321,7 @@ type Pool struct {
 
 func (p *Pool) Get() any {
 	vsched.Point("pool.get")
+	vsched.HBSync(p)
 	p.real.Lock()
 	defer p.real.Unlock()
 	if n := len(p.items); n > 0 {
@@ -310,6 +337,7 @@ func (p *Pool) Get() any {
 
 func (p *Pool) Put(x any) {
 	vsched.Point("pool.put")
+	vsched.HBSync(p)
 	p.real.Lock()
 	p.items = append(p.items, x)
 	p.real.Unlock()
